@@ -5,6 +5,7 @@
   -- API:
   --   Cx.Impl.Blake2.blake2b (pr : Profile) (outlen : Nat) (key msg : Bytes) : Option Bytes
   --        = ContextDyn::new_keyed(outlen, key).update(msg).finalize_at(out[outlen]); `none` = panic
+  --   Cx.Impl.Blake2.hashing_blake2 P pr BITS input = hashing::blake2b_256(input) etc. (P = b or s)
   --   Cx.Impl.Blake2.blake2s likewise;   blake2b_ctx / blake2s_ctx (bits) = the same through Context<BITS>
   --   Profile.wrapping = THE CODE AS IT IS (since /repo commit ca094bf `increment_counter` uses `wrapping_add`,
   --                      in every build profile; also what the old `+=` did in builds without overflow checks)
@@ -315,6 +316,15 @@ def blake2_ctx (P : Params W) (pr : Profile) (BITS : Nat) (key msg : Bytes) : Op
     match Context.update P pr c msg with
     | none => none
     | some c => Context.finalize_at P pr BITS c (Context.outlen BITS)
+
+/-- `hashing::blake2b_224 … blake2b_512, blake2s_224, blake2s_256`: `Blake2x::<BITS>::new().update(input).finalize()` -/
+def hashing_blake2 (P : Params W) (pr : Profile) (BITS : Nat) (input : Bytes) : Option Bytes :=
+  match Context.new P BITS with
+  | none => none
+  | some c =>
+    match Context.update P pr c input with
+    | none => none
+    | some c => Context.finalize P pr BITS c
 
 end generic
 
